@@ -29,17 +29,18 @@ def negative_controls(run, report):
         cfg = plans.MC_THREADS_CFG % dict(threads="1, 2", reads=3, defect="TRUE", cons="MCConstructed", props=prop)
         r = mc.run_mc(run, "MC_Threads", cfg, "neg-threads", emit=False, expect_violation=True)
         report("Threads: LimitSigmaWriteBack=TRUE violates " + prop.split()[1], bool(r["violated"]) or "violated" in r["out"])
-    inv = "INVARIANT Inv_C14\nINVARIANT Inv_C15"
-    for defect, setting, name in (("LimitSigmaWriteBack", "limit_call", "Inv_C14"), ("TauZeroFallsBack", "tau0_call", "Inv_C15")):
+    inv = "INVARIANT Inv_C14\nINVARIANT Inv_C15\nINVARIANT Inv_ModelsAsConfigured"
+    for defect, setting, name in (("LimitSigmaWriteBack", "limit_call", "Inv_C14"), ("LimitSigmaWriteBack", "limit_call", "Inv_ModelsAsConfigured"),
+                                  ("TauZeroFallsBack", "tau0_call", "Inv_C15")):
         d = dict(mc.DEFECTS)
         d[defect] = "TRUE"
-        cfg = mc.LATTICE_CFG % dict(d, kinds=mc.qset(["BTF"]), settings=mc.qset([setting]), style="dense", cast=3, maxteams=2, invariants=inv)
-        r = mc.run_mc(run, "MC_Lattice", cfg, "neg-" + defect, emit=False, expect_violation=True)
-        report("OpenSkill: %s=TRUE violates %s" % (defect, name), any(name in v for v in r["violated"]))
+        cfg = mc.LATTICE_CFG % dict(d, kinds=mc.qset(["BTF"]), settings=mc.qset([setting]), style="dense", cast=3, maxteams=2, invariants="INVARIANT " + name)
+        r = mc.run_mc(run, "MC_Lattice", cfg, "neg-" + defect + "-" + name, emit=False, expect_violation=True)
+        report("OpenSkill: %s=TRUE violates %s" % (defect, name), any(name in v for v in r["violated"]) or name in r["out"])
     # and with the constants FALSE the same instances hold
     cfg = mc.LATTICE_CFG % dict(mc.DEFECTS, kinds=mc.qset(["BTF"]), settings=mc.qset(["limit_call", "tau0_call"]), style="dense", cast=3, maxteams=2, invariants=inv)
     r = mc.run_mc(run, "MC_Lattice", cfg, "pos-controls", emit=False, expect_violation=True)
-    report("OpenSkill: Inv_C14, Inv_C15 hold with the constants FALSE", not r["violated"] and "No error has been found" in r["out"])
+    report("OpenSkill: Inv_C14, Inv_C15, Inv_ModelsAsConfigured hold with the constants FALSE", not r["violated"] and "No error has been found" in r["out"])
 
 
 def corruptions(run, report, seed):
@@ -89,8 +90,15 @@ def corruptions(run, report, seed):
     ev[i]["model_after"]["limit"] = "T" if ev[i]["model_after"]["limit"] == "F" else "F"
     report("a model attribute changed by a call -> C14.model_modified", "C14.model_modified" in verdicts(ev))
     lg = [k for k, e in enumerate(base) if e["op"] == "rate" and e["model"]["kind"] == "BTF" and e["tid"] == base[-1]["tid"]]
+    def refs_of(e):
+        return {p["ref"] for t in e["teams"]["items"] for p in t["items"]}
+
+    # a game with a player who has played before and plays again later (dropping any other one cannot be noticed:
+    # an object seen for the first time may hold any values)
+    drop = next(k for i_, k in enumerate(lg) if 0 < i_ < len(lg) - 1 and
+                any(refs_of(base[k]) & refs_of(base[k1]) & refs_of(base[k2]) for k1 in lg[:i_] for k2 in lg[i_ + 1:]))
     ev = copy.deepcopy(base)
-    del ev[lg[1]]
+    del ev[drop]
     report("an event of a league dropped -> bind.heap (ill-formed trace)", any(f.startswith("bind.heap") for f in verdicts(ev)))
     # the inside of a call (Stages.tla): observed helper values
     s3 = Session()
